@@ -89,3 +89,39 @@ pub fn iter_src(path: &str, stack: &[u64]) {
         );
     }
 }
+
+/// Scans one region of an honest proof: flips every bit and lists the offsets whose flip is accepted.
+pub fn c02_scan(replay: &str, region: &str) {
+    use crate::props::c02::make_honest;
+    use crate::pv::{self, VerifyOutcome, OPTION_NAMES};
+    let v: serde_json::Value = serde_json::from_str(&std::fs::read_to_string(replay).expect("read")).expect("json");
+    let case = Case::from_json(&v["case"]).expect("case");
+    let oi = v["option_set"].as_str().and_then(|o| OPTION_NAMES.iter().position(|n| *n == o)).unwrap_or(0);
+    let mut rep = Report::new();
+    let h = make_honest(&case, oi, &mut rep).expect("honest proof");
+    println!("proof bytes {} regions {:?}", h.proof_bytes.len(), h.regions);
+    let (start, end) = h.regions.iter().find(|r| r.0 == region).map(|r| (r.1, r.2)).expect("region");
+    let offsets: Vec<usize> = (start..end).collect();
+    let res = crate::util::par_map(offsets.len(), |i| {
+        let off = offsets[i];
+        let mut acc = vec![];
+        for bit in 0..8 {
+            let mut m = h.proof_bytes.clone();
+            m[off] ^= 1 << bit;
+            if let Ok(Ok(p)) = crate::util::catch(|| miden::ExecutionProof::from_bytes(&m)) {
+                if p.to_bytes() == h.proof_bytes {
+                    continue;
+                }
+                if let VerifyOutcome::Ok(_) = pv::verify(h.info.clone(), h.si.clone(), h.so.clone(), p) {
+                    acc.push(bit);
+                }
+            }
+        }
+        (off, acc)
+    });
+    for (off, acc) in res {
+        if !acc.is_empty() {
+            println!("ACCEPTED offset {off} (region-relative {}, from-end {}) bits {:?} byte {:#04x}", off - start, end - off, acc, h.proof_bytes[off]);
+        }
+    }
+}
